@@ -412,7 +412,11 @@ func (p *parser) orExpr() Expr {
 	l := p.andExpr()
 	for p.isOp("||") {
 		p.p++
-		l = &EBin{"||", l, p.andExpr()}
+		if p.isId("forall") || p.isId("exists") {
+			l = &EBin{"||", l, p.expr()}
+		} else {
+			l = &EBin{"||", l, p.andExpr()}
+		}
 	}
 	return l
 }
@@ -655,9 +659,9 @@ type ContractFile struct {
 }
 
 var clauseKeywords = map[string]bool{
-	"requires": true, "ensures": true, "assigns": true, "loop": true, "arith": true, "strings": true,
+	"requires": true, "ensures": true, "ensures_assumed": true, "assigns": true, "loop": true, "arith": true, "strings": true,
 	"may_panic": true, "check": true, "assumed": true, "effect": true, "ghostparam": true, "nocheck": true,
-	"pure": true, "inline": true, "reveal": true, "always": true, "recv_assigns": true, "recv_ensures": true, "bind": true, "let": true, "mode": true, "callsite": true, "unrollall": true, "fresh": true,
+	"pure": true, "inline": true, "reveal": true, "always": true, "recv_assigns": true, "recv_ensures": true, "requires_lock": true, "bind": true, "let": true, "mode": true, "callsite": true, "unrollall": true, "fresh": true,
 }
 var topKeywords = map[string]bool{
 	"func": true, "spec": true, "axiom": true, "lemma": true, "invariant": true, "monitor": true, "smt": true, "ghost": true, "bvtype": true, "bvtypes": true, "const": true,
@@ -839,7 +843,7 @@ func parseContractLines(pkg, path string, lines []string, linenos []int) (*Contr
 			case "assumed":
 				cur.Assumed = true
 				cur.AssumeWhy = rest
-			case "requires", "ensures":
+			case "requires", "ensures", "ensures_assumed":
 				cl := &Clause{Kind: w, Text: rest, Line: where}
 				if strings.HasPrefix(rest, "[") {
 					k := strings.Index(rest, "]")
@@ -869,7 +873,7 @@ func parseContractLines(pkg, path string, lines []string, linenos []int) (*Contr
 				kind := f[1]
 				text := strings.TrimSpace(strings.TrimPrefix(strings.TrimSpace(strings.TrimPrefix(rest, f[0])), kind))
 				cl := &Clause{Kind: "loop-" + kind, Loop: k, Text: text, Line: where}
-				if kind == "invariant" || kind == "decreases" {
+				if kind == "invariant" || kind == "decreases" || kind == "assume" {
 					if strings.HasPrefix(text, "[") {
 						j := strings.Index(text, "]")
 						cl.Name = text[1:j]
@@ -888,6 +892,8 @@ func parseContractLines(pkg, path string, lines []string, linenos []int) (*Contr
 					return nil, fail(err)
 				}
 				cur.Clauses = append(cur.Clauses, &Clause{Kind: w, Text: rest, E: e, Line: where})
+			case "requires_lock":
+				cur.Clauses = append(cur.Clauses, &Clause{Kind: w, Text: rest, Line: where})
 			case "recv_assigns":
 				for _, part := range splitTop(rest, ',') {
 					cur.Clauses = append(cur.Clauses, &Clause{Kind: w, Text: strings.TrimSpace(part), Line: where})
